@@ -169,8 +169,10 @@ QUICK = [("list", 1), ("strict", 0)]
 
 def obligations(tier, seed):
     T = 200 if tier == "quick" else 900
-    obs = opcheck.op_obligations(tier, QUICK, ops.KINDS, ["list", "strict", "iso"], T, xs_quick=2, step_quick=5)
-    for (sn, i) in ([("list", 1), ("list", 5)] if tier == "quick" else [("list", j) for j in range(12)] + [("strict", 0), ("iso", 0)]):
+    obs = opcheck.op_obligations("quick" if tier == "quick" else "explicit", QUICK if tier == "quick" else
+                                 [("list", 1), ("list", 5), ("list", 3), ("strict", 0), ("iso", 0)], ops.KINDS, [], T,
+                                 xs_quick=2 if tier == "quick" else 99, step_quick=5 if tier == "quick" else 3)
+    for (sn, i) in ([("list", 1), ("list", 5)] if tier == "quick" else [("list", j) for j in (1, 3, 5, 7, 11)] + [("strict", 0), ("iso", 0)]):
         C = ops.payloads(common.load({"schema": sn, "doc": i}))
         make_live(C)
         for k in range(len(model_ops(C))):
